@@ -235,3 +235,33 @@ def compute_xn_fp(u):
     xn = sr.fields["xn"].vec()
     u.ensure(QAll(n, lambda j: _z3.And(_z3.fpLEQ(lv.f(j), xn.f(j)), _z3.fpLEQ(xn.f(j), uv.f(j)))), "float64:xn_inside_the_bounds_exactly")
     u.canary(QAll(n, lambda j: _z3.fpLT(lv.f(j), xn.f(j))), "float64:xn_strictly_above_lb")
+
+
+@unit("C05.SimpleEvaluator.passthrough", ["C05", "C11"], ["pygradflow.eval.SimpleEvaluator._eval_obj", "pygradflow.eval.SimpleEvaluator._eval_obj_grad", "pygradflow.eval.SimpleEvaluator._eval_cons", "pygradflow.eval.SimpleEvaluator._eval_cons_jac", "pygradflow.eval.SimpleEvaluator._eval_lag_hess", "pygradflow.eval.create_evaluator", "pygradflow.eval.Evaluator.obj", "pygradflow.eval.Evaluator.cons"], config={"max_paths": 50})
+def simple_evaluator(u):
+    """validate_input=False selects SimpleEvaluator: every callback is evaluated at exactly the point handed in
+    (so the in-box argument of the call sites carries over), and create_evaluator dispatches on validate_input only"""
+    from .c04_transform import UserProblem
+
+    params = mk_params(u)
+    validate = u.path.choose("validate_input")
+    params.fields["validate_input"] = validate
+    problem = mk_problem(u)
+    n, m = problem.fields["__n__"], problem.fields["num_cons"]
+    up = UserProblem(u, problem)
+    ev = u.call("pygradflow.eval.create_evaluator", problem, params)
+    u.ensure(ev.cls.name == ("ValidatingEvaluator" if validate else "SimpleEvaluator"), "create_evaluator_dispatches_on_validate_input")
+    if validate:
+        return
+    x = u.vec("x", n, region="USER")
+    y = u.vec("y", m, region="USER")
+    u.method(ev, "obj", x)
+    u.method(ev, "obj_grad", x)
+    u.method(ev, "cons", x)
+    u.method(ev, "cons_jac", x)
+    u.method(ev, "lag_hess", x, y)
+    kinds = [c[0] for c in up.calls]
+    full = ["obj", "obj_grad", "cons", "cons_jac", "lag_hess"]
+    u.ensure(kinds == full or (u.it.truth(m == 0) and kinds == ["obj", "obj_grad", "lag_hess"]), "one_user_call_per_evaluation(constraint_callbacks_only_when_m>0)", desc=str(kinds))
+    u.ensure(all(c[1] is x for c in up.calls), "every_callback_evaluated_at_the_very_point_handed_in")
+    u.cover("end")
